@@ -41,7 +41,14 @@ func cVSrc(s *ast.Schema) string {
 		}
 		return "(Some " + cstr(d.Name) + ")"
 	}
-	return "{| v_types := " + clist(types) + "; v_query := " + root(s.Query) + "; v_mutation := " + root(s.Mutation) + "; v_subscription := " + root(s.Subscription) + " |}"
+	var dirargs []string
+	for _, dn := range sortedKeys(s.Directives) {
+		for _, a := range s.Directives[dn].Arguments {
+			dirargs = append(dirargs, a.Type.Name())
+		}
+	}
+	return "{| v_types := " + clist(types) + "; v_query := " + root(s.Query) + "; v_mutation := " + root(s.Mutation) + "; v_subscription := " + root(s.Subscription) +
+		"; v_dirargs := " + cstrlist(dirargs) + " |}"
 }
 
 func cTMap(s *ast.Schema) string {
